@@ -1,7 +1,7 @@
 (* C09 — deletion removes exactly the deleted entity.  Statements only. *)
 From Coq Require Import List Arith NArith Bool.
 Import ListNotations.
-From Orca Require Import Util Reindex Reorg ReidxProofs CheckReidx SelfReidx.
+From Orca Require Import Util Reindex Reorg ReidxProofs ReidxBind ReidxInv CheckReidx SelfReidx.
 Local Open Scope N_scope.
 
 (* after recalculate_ids a deleted item survives in the index space only as a later-region import (D06) or
@@ -35,3 +35,29 @@ Example C09_nonvacuous :
              [mkSite KCode SF 2 (OFunc 3); mkSite KCode SG 1 (OFunc 3); mkSite KCode SM 1 (OFunc 3)] in
   agree c = true /\ dom_of (verdict09 c) = true /\ holds_of (verdict09 c) = true.
 Proof. vm_compute. repeat split; reflexivity. Qed.
+
+(* ---- over every reachable state (Proofs/ReidxInv.v): outside D02 / D06 / D26 the recomputed index space is
+   exactly the live items, each once, the emitted module lists exactly their entities in that order, every live
+   item's id maps to its position, a deleted item's id has no entry (a remaining reference fails loudly), and
+   index_space never hits its own length assertion *)
+Theorem C09_index_space_is_exactly_the_live_items :
+  forall m x, wf m -> okD02 x m = true -> okD06 x m = true -> okD26 x m = true ->
+  forall l mp, index_space (get_sp m x) = Ok (l, mp) ->
+  space_of_model m l x = map it_fp l /\ NoDup (map it_id l) /\
+  (forall it, In it l <-> In it (s_items (get_sp m x)) /\ it_del it = false) /\
+  (forall p it, nth_error l p = Some it -> lookup mp (it_id it) = Some (N.of_nat p)).
+Proof. exact wf_space_is_index_space. Qed.
+Print Assumptions C09_index_space_is_exactly_the_live_items.
+Theorem C09_deleted_ids_are_unmapped :
+  forall m x, wf m -> okD06 x m = true -> okD26 x m = true ->
+  forall l mp, index_space (get_sp m x) = Ok (l, mp) ->
+  forall id, (forall it, In it (s_items (get_sp m x)) -> it_id it = id -> it_del it = true) -> lookup mp id = None.
+Proof. exact wf_deleted_unmapped. Qed.
+Print Assumptions C09_deleted_ids_are_unmapped.
+Theorem C09_wf_reached_by_every_history :
+  forall h m rets m' rets' b, wf m -> run_pref m h rets = (m', rets', b) -> wf m'.
+Proof. exact run_pref_wf. Qed.
+Print Assumptions C09_wf_reached_by_every_history.
+Theorem C09_index_space_total : forall m x, wf m -> exists l mp, index_space (get_sp m x) = Ok (l, mp).
+Proof. exact wf_index_space_total. Qed.
+Print Assumptions C09_index_space_total.
